@@ -32,6 +32,9 @@ func routingPart(t *testing.T, c *ev.Check) bool {
 		bound = 1
 	}
 	done, ok := e.ExploreMany(fam, bound, 1)
+	// two topics whose custom-hash partitioners can be inside their hash computation at the same time (the hasher is
+	// user-supplied code and therefore a decision point): all schedules with <= 2 deviations
+	e.Explore("route?pt=chash2&keys=all&lead=0&nm=4", 2)
 	c.Set("routing_family_size", len(fam))
 	c.Set("routing_family_done", done)
 	c.Set("routing_executions", e.Execs)
